@@ -13,7 +13,7 @@ import ast
 from sa.model import AnalysisError, FuncInfo
 from sa.ctx import Ctx, short, stmt_key
 from sa.cfg import NORMAL, describe_path
-from sa.report import Report
+from sa.report import Report, section
 from sa import pat, lattice
 from sa.util import fact_in, node_stores_attr
 from rules.C08 import cfg_root
@@ -368,20 +368,20 @@ class C18:
 
 def run(ctx: Ctx, rep: Report, tier: str):
     c = C18(ctx, rep)
-    c.l1()
-    c.l2()
-    c.l3()
-    c.l4()
-    c.l5()
-    c.l6()
-    c.l7()
-    c.l8()
-    c.l9()
-    c.l10_l11()
+    section(rep, c.l1)
+    section(rep, c.l2)
+    section(rep, c.l3)
+    section(rep, c.l4)
+    section(rep, c.l5)
+    section(rep, c.l6)
+    section(rep, c.l7)
+    section(rep, c.l8)
+    section(rep, c.l9)
+    section(rep, c.l10_l11)
     rep.assume("threading.Thread / Event / queue.Queue behave as documented")
     from rules.common import start_rechecks_after_join
     rep.rule("C18.L12", "one loop per service: start() re-checks is_alive() after the grace join before it creates a thread (C15.R4)", 1)
-    start_rechecks_after_join(ctx, rep, "C18.L12")
+    section(rep, lambda: start_rechecks_after_join(ctx, rep, "C18.L12"))
     rep.rule("C18.L13", "the time actually waited after a failing step is the backoff value itself: in run(), under `in_backoff > 0` the loop sleeps self.in_backoff, "
              "otherwise the regular cadence", 2)
     rf = ctx.prog.cls("Runnable").methods["run"]
